@@ -223,10 +223,24 @@ def fresh_root():
 def run_case(job):
     case, mode, seed = job
     rng = random.Random(seed)
-    data = render(case, rng)
+    data = render(case, rng) if mode != "slackcut" else b""
     kind = mode
-    full_want = [json.loads(json.dumps(x)) for x in case["replies"]]
-    if mode == "cut":
+    full_want = [json.loads(json.dumps(x)) for x in case["replies"]] if case else []
+    if mode == "slackcut":
+        # a frame LONGER than its CBOR item (an effectful request followed by filler), and the input closed inside the filler:
+        # the frame never arrived whole, so nothing may have been carried out
+        v = seed % 12
+        req = [{"Delete": {"path": "f", "expected": H("c1")}}, {"Put": {"path": "f", "expected": H("c1"), "len": 0, "hash": H("c0")}},
+               {"Put": {"path": "planted", "expected": None, "len": 0, "hash": H("c0")}}][v % 3]
+        item = cb.frame(req)[4:]
+        filler = bytes(40) if (v // 3) % 2 == 0 else cb.frame("Bye") + bytes(8)
+        with_hello = v < 6
+        data = PRO["ok"] + (cb.frame({"Hello": {"version": 1}}) if with_hello else b"") + struct.pack(">I", len(item) + len(filler)) + item + filler
+        data = data[:len(data) - rng.randrange(1, len(filler) + 1)]
+        case = {"pro": "ok", "pieces": ["hello"] * with_hello + ["padded_" + next(iter(req)).lower() + "_cut_in_filler"], "replies": ["Hello"] * with_hello, "exit": 1, "f": "c1", "conf": "none"}
+        full_want = list(case["replies"])
+        kind = mode = "cut"
+    elif mode == "cut":
         data = data[:rng.randrange(0, len(data) + 1)]
     elif mode == "mutant":
         b = bytearray(data)
